@@ -330,7 +330,7 @@ func init() {
 	vc.Register(&vc.Check{
 		ID:    "C08",
 		Level: "exploration",
-		Rule:  "cases: one real Serf node \"a\" (inert memberlist) per case receives a query message through Delegate.NotifyMsg, then the identical message again. Product of: 6 node tag maps over {role,dc} (zone never set) x every ordered list of 0..2 wire filters from a 38-letter alphabet (8 node-name lists incl. empty list, empty name, case/prefix near misses; 21 tag filters = tags {role,dc,zone} x patterns {\"\",web,^web$,w.b,a|b,\\d+,^$,(?i)WEB,east|west,., invalid ( and [}; 9 malformed: type byte only, garbage after the type byte, unknown types 2/255 with a valid body, truncated encodings) x ack flag x no-broadcast flag x 9 names (q; internal: _serf_ping, _serf_x, _serf_, _serf_conflict, _serf_list-keys; near misses _serfx, serf_, _SERF_ping). quick takes the full flag x name product for lists of length <=1 and 2 flag x 2 name combinations for pairs; thorough the full product for pairs plus all ordered triples over a 12-letter sub-alphabet. histories: every sequence of <=4 (thorough 5) arrivals over 4 distinct queries (same time/other id, same id/other time) under 3 attribute assignments, oracle after every arrival. Reference: name in list / regexp.MatchString(pattern, tags[tag]) / malformed => excluded; observed: queries on the application's event channel, acknowledgement packets handed to the transport, query messages queued for re-broadcast. non-trivial = the reference excludes the node, or the name is internal or a near miss, or a flag is set (first scenario); history with a repeated arrival",
+		Rule:  "cases: one real Serf node \"a\" (inert memberlist) per case receives a query message through Delegate.NotifyMsg, then the identical message again. Product of: 6 node tag maps over {role,dc} (zone never set) x every ordered list of 0..2 wire filters from a 38-letter alphabet (8 node-name lists incl. empty list, empty name, case/prefix near misses; 21 tag filters = tags {role,dc,zone} x patterns {\"\",web,^web$,w.b,a|b,\\d+,^$,(?i)WEB,east|west,., invalid ( and [}; 9 malformed: type byte only, garbage after the type byte, unknown types 2/255 with a valid body, truncated encodings) x ack flag x no-broadcast flag x 9 names (q; internal: _serf_ping, _serf_x, _serf_, _serf_conflict, _serf_list-keys; near misses _serfx, serf_, _SERF_ping). quick takes the full flag x name product for lists of length <=1 and 2 flag x 2 name combinations for pairs; thorough the full product for pairs plus all ordered triples over a 12-letter sub-alphabet. tag-changes: every sequence of length 4 (thorough 5; each prefix is judged) over {query with tag filter F1, query with tag filter F2, query with a node filter, SetTags(T1), SetTags(T2), SetTags(T3)} on one node under 2 assignments of filters and tag maps, fresh Lamport time and id per query, reference = the tags in force when the query arrives; non-trivial = a tag-filter query arrives after a tag change. histories: every sequence of <=4 (thorough 5) arrivals over 4 distinct queries (same time/other id, same id/other time) under 3 attribute assignments, oracle after every arrival. Reference: name in list / regexp.MatchString(pattern, tags[tag]) / malformed => excluded; observed: queries on the application's event channel, acknowledgement packets handed to the transport, query messages queued for re-broadcast. non-trivial = the reference excludes the node, or the name is internal or a near miss, or a flag is set (first scenario); history with a repeated arrival",
 		Assumptions: []string{
 			"one node over an inert real memberlist; arrivals are serial (memberlist's packet handler)",
 			"Lamport times stay inside the recent-query window and above the join cut-off (those rules are not part of this statement)",
@@ -421,6 +421,7 @@ func c08run(ctx *vc.Ctx) {
 	}
 
 	c08histories(ctx, &idx)
+	c08tagChanges(ctx, &idx)
 }
 
 // c08case: first arrival and identical second arrival on a fresh node.
@@ -566,5 +567,111 @@ func c08history(ctx *vc.Ctx, scn *vc.Scenario, si int, tags map[string]string, s
 	scn.Case(out, repeated)
 	if len(scn.Samples) < 1 && repeated && len(seq) >= 3 {
 		scn.Sample(map[string]interface{}{"arrivals": hist, "outcome": out})
+	}
+}
+
+// c08tagChanges: the node's tags change between queries (Serf.SetTags); every query must be
+// judged against the tags in force when it arrives.
+func c08tagChanges(ctx *vc.Ctx, idx *int) {
+	scn := ctx.Scn("tag-changes", "cases")
+	depth := 4
+	if ctx.Thorough() {
+		depth = 5
+	}
+	type variant struct {
+		initial map[string]string
+		filters [3][]c08filter // F1, F2, node filter
+		tags    [3]map[string]string
+	}
+	variants := []variant{
+		{
+			initial: map[string]string{"role": "web"},
+			filters: [3][]c08filter{{c08tagFilter("role", "^web$")}, {c08tagFilter("dc", "east")}, {c08nodeFilter("b", c08self)}},
+			tags:    [3]map[string]string{{"role": "web", "dc": "east1"}, {"role": "db"}, {}},
+		},
+		{
+			initial: map[string]string{},
+			filters: [3][]c08filter{{c08tagFilter("zone", "^$")}, {c08tagFilter("role", "a|b"), c08tagFilter("zone", "x")}, {c08nodeFilter("b")}},
+			tags:    [3]map[string]string{{"zone": "x"}, {"role": "a", "zone": "x"}, {"role": "web", "zone": ""}},
+		},
+	}
+	for vi, va := range variants {
+		seq := make([]int, depth)
+		for {
+			*idx++
+			if ctx.Mine(*idx) {
+				var v *c08verdict
+				var hist []string
+				nontrivial := false
+				x := vsched.Run(vsched.RunOpts{MaxSteps: 400000}, func() {
+					n, err := world.NewNode(c08self, 0, c08opt(va.initial))
+					if err != nil {
+						panic(err)
+					}
+					vsched.Quiesce()
+					n.DrainEvents()
+					n.Tr.TakeSent()
+					n.Outbox()
+					cur := va.initial
+					changed := false
+					for step, a := range seq {
+						if a >= 3 {
+							cur = va.tags[a-3]
+							hist = append(hist, fmt.Sprintf("SetTags(%v)", c08sortedTags(cur)))
+							cp := map[string]string{}
+							for k, val := range cur {
+								cp[k] = val
+							}
+							if err := n.S.SetTags(cp); err != nil {
+								v = &c08verdict{"harness: SetTags failed", err.Error()}
+								break
+							}
+							vsched.Quiesce()
+							n.DrainEvents()
+							n.Tr.TakeSent()
+							n.Outbox()
+							changed = true
+							continue
+						}
+						q := c08query{ltime: uint64(10 + step), id: uint32(100 + step), name: c08name{"q", false}, ack: true, filters: va.filters[a]}
+						if changed && a < 2 {
+							nontrivial = true
+						}
+						wire := q.wire()
+						hist = append(hist, q.String())
+						n.Delegate().NotifyMsg(append([]byte{}, wire...))
+						vsched.Quiesce()
+						if v = c08judge(q, cur, true, c08observe(n, q, wire)); v != nil {
+							break
+						}
+					}
+					n.S.Shutdown()
+				})
+				if len(x.Panics) > 0 {
+					v = &c08verdict{"panic " + x.Panics[0].Frame, fmt.Sprintf("panic %s\n%s", x.Panics[0].Value, x.Panics[0].Stack)}
+				}
+				out := "ok"
+				if v != nil {
+					out = v.sig
+					ctx.Violation(scn.Name, "tag-change: "+v.sig, fmt.Sprintf("initial tags %v, steps %v: %s", c08sortedTags(va.initial), hist, v.msg), map[string]interface{}{"variant": vi, "sequence": seq, "steps": hist})
+				}
+				scn.Case(out, nontrivial)
+				if len(scn.Samples) < 1 && nontrivial {
+					scn.Sample(map[string]interface{}{"initial_tags": c08sortedTags(va.initial), "steps": hist, "outcome": out})
+				}
+			}
+			k := depth - 1
+			for k >= 0 {
+				seq[k]++
+				if seq[k] < 6 {
+					break
+				}
+				seq[k] = 0
+				k--
+			}
+			if k < 0 {
+				break
+			}
+		}
 	}
 }
